@@ -191,9 +191,12 @@ def gen_dts(rnd, N, maxratio):
     """N sampling intervals in [1e-2, 1e2]; neighbouring ratio at most maxratio"""
     c = 10 ** rnd.uniform(-2, 2)
     mode = rnd.random()
-    if mode < 0.35:          # nearly uniform sampling
+    if mode < 0.3:           # nearly uniform sampling
         return [min(1e2, max(1e-2, c * rnd.uniform(0.9, 1.1))) for _ in range(N)]
-    r = maxratio if mode < 0.7 else min(maxratio, 3.0)
+    if mode < 0.4:           # alternating between two rates at the extreme neighbouring ratio of the quantifier
+        lo = 10 ** rnd.uniform(-2, 2 - math.log10(maxratio))
+        return [lo if (k % 2 == 0) else lo * maxratio for k in range(N)]
+    r = maxratio if mode < 0.75 else min(maxratio, 3.0)
     out = [c]
     for _ in range(N - 1):
         f = 10 ** rnd.uniform(-math.log10(r), math.log10(r))
@@ -457,7 +460,7 @@ GSPECS = ['PL', 'FDC11', 'FDC22', 'MD5', 'MD6']
 
 def gen_fitspl(rnd, n_per, op='fit_spl'):
     reqs = []
-    sizes = [2, 3, 5, 10, 40, 21]
+    sizes = [40, 2, 5, 3, 10, 21]      # the 40-point data sets come first so that the quick tier has them
     for G in GROUPS:
         rep, dof = GROUPS[G]
         for spec in GSPECS:
@@ -659,7 +662,7 @@ def tangent_config(x, y, phi, R):
 
 def gen_dub(rnd, n_random, grid):
     reqs = []
-    radii = [0.25, 1.0, 3.0]
+    radii = [0.01, 0.25, 1.0, 3.0, 100.0]
     pts = [-4.0, -1.5, -0.5, 0.0, 0.5, 1.5, 4.0]
     k = 0
     if grid:
@@ -675,8 +678,8 @@ def gen_dub(rnd, n_random, grid):
                             continue
                         reqs.append('dub 3 f64 ' + hexs([gx * R, gy * R, math.sin(phi), math.cos(phi), R]) + ' # grid')
     for i in range(n_random):
-        R = 10 ** rnd.uniform(-1, 1)
-        sc = rnd.choice([0.2, 1.0, 3.0, 8.0])
+        R = 10 ** rnd.uniform(-2, 2)
+        sc = rnd.choice([0.2, 1.0, 3.0, 8.0, 50.0])
         phi = rnd.uniform(-math.pi, math.pi)
         reqs.append('dub 3 f64 ' + hexs([rnd.uniform(-sc, sc) * R, rnd.uniform(-sc, sc) * R, math.sin(phi), math.cos(phi), R]) + ' # random')
     return reqs
@@ -1185,7 +1188,8 @@ class C14:
     rule = ('inputs generated from the seed: fit_spline_1d per spec (PiecewiseLinear, FixedDerCubic<1|2,1|2>, MinDerivative<5|6,3,3>) '
             'x 1..39 segments x sampling intervals 1e-2..1e2 (nearly uniform / neighbouring ratios <= 1e3 interpolating, <= 10 '
             'derivative-minimising) x data magnitudes x zero/non-zero boundary values; fit_spline on SO3, SE3, SE2, R^3 x 5 specs x '
-            '2..40 points; dubins poses on a 7x7x8 grid x 3 radii plus random poses/radii; fit_bspline K in {1,3,4}; '
+            '2..40 points (40-point sets in both tiers; neighbouring interval ratios up to 1e3 incl. alternating extremes); dubins poses on a '
+            '7x7x8 grid x 5 radii (1e-2..1e2) plus random poses with radii over four decades; fit_bspline K in {1,3,4}; '
             'reparameterize_spline on SE2 splines of 1..4 constant-velocity/fixed-cubic segments x random bound vectors x start/end speeds. '
             'distinct_nontrivial counts distinct request lines')
     assumptions = ['Eigen SparseLU (constraint system and KKT system) and lp2d::solve are parameters of the model; their results are audited '
@@ -1208,7 +1212,7 @@ class C14:
         q = ctx['tier'] == 'quick'
         b = ctx.get('budget', 1)
         return {'fit1d': (22 if q else 400) * b, 'kkt': 12 if q else 90, 'fitspl': (3 if q else 36) * b, 'glue': (2 if q else 20) * b,
-                'dub_random': (300 if q else 20000) * b, 'dub_grid': 0.25 if q else 1.0,
+                'dub_random': (300 if q else 20000) * b, 'dub_grid': 0.2 if q else 1.0,
                 'bsp': (24 if q else 450) * b, 'rep': (30 if q else 1000) * b}
 
     def explore(self, ctx):
